@@ -4,6 +4,7 @@ import (
 	"fmt"
 	"go/token"
 	"go/types"
+	"strings"
 
 	"golang.org/x/tools/go/ssa"
 )
@@ -260,14 +261,124 @@ func (fr *Frame) selectStmt(x *ssa.Select, st *State) *Val {
 	return &Val{K: vTuple, Elems: elems}
 }
 
-// syncOp: hook for the lock discipline layer (monitor invariants, guarded-by). Sequentially a no-op.
+// monitorFor: the monitor declared for the struct type that owns an address (mutex field or protected field)
+func (u *Unit) monitorFor(a *Val) (*Monitor, string) {
+	if a == nil || a.K != vAddr || len(a.Sels) == 0 || a.Cell == nil {
+		return nil, ""
+	}
+	last := a.Sels[len(a.Sels)-1]
+	if last.field < 0 {
+		return nil, ""
+	}
+	n, ok := last.cont.(*types.Named)
+	if !ok || n.Obj().Pkg() == nil {
+		return nil, ""
+	}
+	key := n.Obj().Pkg().Name() + "." + n.Obj().Name()
+	fname := fieldName(last.cont, last.field)
+	for _, m := range u.eng.contracts.monitors {
+		if m.TypeName == key {
+			return m, fname
+		}
+	}
+	return nil, ""
+}
+
+func heldKey(m *Monitor, ref string) string { return "held:" + m.TypeName + "." + m.Lock }
+
+// syncOp: the lock discipline layer. Lock of a declared monitor: other goroutines may have changed the
+// protected fields while the lock was not held (they are havocked), and the lock is now held. Unlock: released.
 func (fr *Frame) syncOp(name string, st *State, args []*Val, pos token.Pos) *Val {
 	u := fr.u
 	if len(args) > 0 && args[0].K == vTerm {
 		u.oblige(fr, st, "nil", "sync", fmt.Sprintf("(distinct %s nil)", args[0].T), pos, "sync primitive through a nil pointer")
+	}
+	if len(args) > 0 {
+		if m, fname := u.monitorFor(args[0]); m != nil && fname == m.Lock {
+			hk := heldKey(m, args[0].Ref)
+			u.ghostSort[hk] = "Bool"
+			switch {
+			case strings.HasSuffix(name, ".Lock"):
+				// protected fields: unknown contents on acquisition
+				base := *args[0]
+				base.Sels = base.Sels[:len(base.Sels)-1]
+				cont := args[0].Sels[len(args[0].Sels)-1].cont
+				stt := cont.Underlying().(*types.Struct)
+				// The function's contract speaks about the protected state as of the first acquisition; after a
+				// release, other goroutines may have changed it, so a re-acquisition havocs it.
+				rk := "released:" + hk
+				reacquired := st.ghost[rk] == "true"
+				for i := 0; i < stt.NumFields() && reacquired; i++ {
+					for _, pf := range m.Protects {
+						if stt.Field(i).Name() != pf {
+							continue
+						}
+						fa := base
+						fa.Sels = append(append([]sel{}, base.Sels...), sel{field: i, cont: cont})
+						if mt, ok := stt.Field(i).Type().Underlying().(*types.Map); ok {
+							// the map object stays, its contents are whatever other goroutines left
+							mref := u.loadAddr(st, &fa)
+							kd, kv, kl := u.regM(mt)
+							ks, vs := u.w.sortOf(mt.Key()), u.w.sortOf(mt.Elem())
+							nd := u.w.newConst("lockedDom", fmt.Sprintf("(Array %s Bool)", ks))
+							nv := u.w.newConst("lockedVal", fmt.Sprintf("(Array %s %s)", ks, vs))
+							nl := u.w.newConst("lockedLen", "Int")
+							u.fact(fmt.Sprintf("(>= %s 0)", nl))
+							st.heap[kd] = u.nameHeap(kd, fmt.Sprintf("(store %s %s %s)", u.heapOf(st, kd), mref, nd))
+							st.heap[kv] = u.nameHeap(kv, fmt.Sprintf("(store %s %s %s)", u.heapOf(st, kv), mref, nv))
+							st.heap[kl] = u.nameHeap(kl, fmt.Sprintf("(store %s %s %s)", u.heapOf(st, kl), mref, nl))
+							// ghost: contents at the first acquisition are what old() of the sequential contract means
+							if _, seen := st.ghost["locked-once:"+hk]; seen {
+								u.note("monitor re-acquired: protected state havocked again")
+							}
+							u.ghostSort["locked-once:"+hk] = "Bool"
+							st.ghost["locked-once:"+hk] = "true"
+						} else {
+							nvv := u.w.newConst("locked:"+pf, u.w.sortOf(stt.Field(i).Type()))
+							for _, f := range u.wfFacts(st, nvv, stt.Field(i).Type(), 0) {
+								u.fact(f)
+							}
+							u.storeAddr(st, &fa, nvv)
+						}
+					}
+				}
+				st.ghost[hk] = "true"
+			case strings.HasSuffix(name, ".Unlock"):
+				u.oblige(fr, st, "guarded", "unlock", u.ghostOf(st, hk), pos, "unlock of a mutex that is not held")
+				st.ghost[hk] = "false"
+				u.ghostSort["released:"+hk] = "Bool"
+				st.ghost["released:"+hk] = "true"
+			}
+		}
 	}
 	if h := u.monitorHook; h != nil {
 		h(fr, name, st, args, pos)
 	}
 	return &Val{K: vNone}
 }
+
+// guardedAccess: a protected field is touched: the monitor must be held
+func (fr *Frame) guardedAccess(a *Val, st *State, pos token.Pos) {
+	u := fr.u
+	m, fname := u.monitorFor(a)
+	if m == nil {
+		return
+	}
+	for _, pf := range m.Protects {
+		if pf == fname {
+			hk := heldKey(m, a.Ref)
+			u.ghostSort[hk] = "Bool"
+			if _, ok := st.ghost[hk]; !ok {
+				st.ghost[hk] = "false"
+			}
+			u.oblige(fr, st, "guarded", fname, st.ghost[hk], pos, "access to "+fname+" without holding "+m.Lock)
+			// remember which map values come from insert-only fields
+			for _, io := range m.InsertOnly {
+				if io == fname {
+					u.insertOnlyAddrs = append(u.insertOnlyAddrs, a)
+				}
+			}
+		}
+	}
+}
+
